@@ -242,6 +242,13 @@ func genStream(ch *Choices, big bool) []byte {
 		}
 		last := i == nl-1
 		if last && ch.Bool(1, 3, "unterminated-tail") {
+			if ch.Bool(1, 3, "dangling-introducer") {
+				// the stream ends inside an escape introducer that never completes: these bytes are
+				// not an ANSI sequence and belong to the output
+				// (only introducers without a digit: taskctl's pattern, the well-known ansi-regex,
+				// accepts a digit as final byte, so "ESC [ 3" is a sequence by its definition)
+				sb.WriteString([]string{"\x1b", "\x1b[", "\x1b[?"}[ch.Choose(3, "introducer")])
+			}
 			break
 		}
 		switch ch.Weighted([]int{6, 2, 1}, "eol") {
